@@ -45,13 +45,28 @@ structure Defects where
       of a built-in directive that no longer exists; reachable when the schema registers a custom
       directive of that name) -/
   ifdefSkipsUnknownField : Bool := false
+  /-- `OverlappingFieldsCanBeMerged` files the fields of an inline fragment WITHOUT type condition under
+      the key `None` instead of the `on_type` of the enclosing selection, so two of them below
+      DIFFERENT type conditions collide: a valid document is rejected -/
+  overlapUntypedInlineKeyedNone : Bool := false
+  /-- `VariableInAllowedPosition` counts the literal `null` as a default value of the variable -/
+  nullDefaultCounts : Bool := false
+  /-- `KnownArgumentNames` keeps `current_args` when it enters a field it does not know — and
+      `__typename` is one: arguments of such a field are judged against the enclosing field's -/
+  knownArgsStale : Bool := false
+  /-- `ArgumentsOfCorrectType` substitutes the supplied variable values into the argument and judges
+      the result as a constant: the argument is not judged at all when a variable has no value, and a
+      variable VALUE is judged by the rules for literals -/
+  argsJudgedAfterSubstitution : Bool := false
   deriving Repr, Inhabited, DecidableEq
 
 def Defects.pinned : Defects :=
   { inputValueNotForwarded := true, subtypeListNonNull := true, locationDefaultIgnored := true,
     typenameNotVisited := true, overlapKeyedByCondition := true, noSingleRootSubscription := true,
     inputObjectAnyValue := true, enumAcceptsString := true, intRangeNotChecked := true,
-    missingVariableAccepted := true, ifdefSkipsUnknownField := true }
+    missingVariableAccepted := true, ifdefSkipsUnknownField := true,
+    overlapUntypedInlineKeyedNone := true, nullDefaultCounts := true, knownArgsStale := true,
+    argsJudgedAfterSubstitution := true }
 
 -- ------------------------------------------------------------------ message kinds
 
@@ -248,6 +263,54 @@ def validInput (S : VSchema) (D : Defects) : Nat → TypeRef → GValue → Bool
         | _ => true
 
 def valueFuel : Nat := 64
+
+/-- what a repaired `ArgumentsOfCorrectType` applies to the argument AS WRITTEN: `is_valid_input_value`
+    over literals, a variable being acceptable wherever it stands (its type is the business of
+    `VariableInAllowedPosition`, its value that of variable coercion) -/
+def validLit (S : VSchema) (D : Defects) : Nat → TypeRef → DValue → Bool
+  | 0, _, _ => true
+  | fuel + 1, ty, v =>
+    match v with
+    | .var _ => true
+    | _ =>
+    match ty with
+    | .nonNull t => (match v with | .null => false | _ => validLit S D fuel t v)
+    | .list t => (match v with
+        | .list xs => xs.all (validLit S D fuel t)
+        | .null => true
+        | _ => validLit S D fuel t v)
+    | .named n =>
+      match v with
+      | .null => true
+      | _ =>
+        match S.kindOf n with
+        | some .scalar =>
+          if n = "Int" then (match v with | .int i => D.intRangeNotChecked || (i32Min ≤ i && i ≤ i32Max) | _ => false)
+          else if n = "Float" then (match v with | .int _ => true | .float _ => true | _ => false)
+          else if n = "String" then (match v with | .str _ => true | _ => false)
+          else if n = "Boolean" then (match v with | .bool _ => true | _ => false)
+          else if n = "ID" then (match v with | .int _ => true | .str _ => true | _ => false)
+          else true
+        | some .enum =>
+          let vals := match S.ty? n with | some t => t.values | none => []
+          (match v with
+           | .enum e => vals.contains e
+           | .str s => if D.enumAcceptsString then vals.contains s else false
+           | _ => false)
+        | some .input =>
+          (match S.input? n, v with
+           | some idef, .obj fs =>
+             (if idef.oneof then
+                (fs.length == 1 && (match fs with | [(_, .null)] => false | _ => true))
+              else true)
+             && idef.fields.all (fun f =>
+                  match fs.find? (·.1 = f.name) with
+                  | some (_, fv) => validLit S D fuel f.ty fv
+                  | none => !(f.ty.isNonNull && f.default.isNone))
+             && fs.all (fun p => idef.fields.any (·.name = p.1))
+           | _, .obj _ => true
+           | _, _ => D.inputObjectAnyValue)
+        | _ => true
 
 -- ------------------------------------------------------------------ the walker (visitor.rs)
 
@@ -489,31 +552,38 @@ def ruleArgsCorrect (S : VSchema) (D : Defects) (vars : List (String × GValue))
     | .enterArg n v =>
       (match cur.bind (fun ds => ds.find? (·.name = n)) with
        | some a =>
-         (match substVars (if unsel then [] else vars) v with
-          | some c => if validInput S D valueFuel a.ty c then [] else [Kind.argInvalid]
-          | none => [])
+         if D.argsJudgedAfterSubstitution then
+           (match substVars (if unsel then [] else vars) v with
+            | some c => if validInput S D valueFuel a.ty c then [] else [Kind.argInvalid]
+            | none => [])
+         else (if validLit S D valueFuel a.ty v then [] else [Kind.argInvalid])
        | none => [])
       ++ ruleArgsCorrect S D vars opName cur unsel es
     | _ => ruleArgsCorrect S D vars opName cur unsel es
 
-/-- `KnownArgumentNames`: `current_args` is NOT reset when the field is unknown -/
-def ruleKnownArgs (S : VSchema) : Option (List ArgDef × Bool) → List Evt → List Kind
+/-- `KnownArgumentNames`: `current_args` is NOT reset when the field is unknown (`knownArgsStale`);
+    repaired: a field the parent type does not have has no argument definitions, `__typename` on a
+    composite type has the empty list -/
+def ruleKnownArgs (S : VSchema) (D : Defects) : Option (List ArgDef × Bool) → List Evt → List Kind
   | _, [] => []
   | cur, e :: es =>
     match e.ev with
-    | .enterDir dr => ruleKnownArgs S ((S.dir? dr.name).map (fun dd => (dd.args, true))) es
-    | .exitDir _ => ruleKnownArgs S none es
+    | .enterDir dr => ruleKnownArgs S D ((S.dir? dr.name).map (fun dd => (dd.args, true))) es
+    | .exitDir _ => ruleKnownArgs S D none es
     | .enterField _ n _ _ _ =>
       (match e.par.bind (fun p => S.field? p n) with
-       | some f => ruleKnownArgs S (some (f.args, false)) es
-       | none => ruleKnownArgs S cur es)
-    | .exitField => ruleKnownArgs S none es
+       | some f => ruleKnownArgs S D (some (f.args, false)) es
+       | none =>
+         if D.knownArgsStale then ruleKnownArgs S D cur es
+         else ruleKnownArgs S D
+           (if n = "__typename" && (match e.par with | some p => S.isComposite p | none => false) then some ([], false) else none) es)
+    | .exitField => ruleKnownArgs S D none es
     | .enterArg n _ =>
       (match cur with
        | some (defs, isDir) => if defs.any (·.name = n) then [] else [if isDir then Kind.unknownArgDir else Kind.unknownArgField]
        | none => [])
-      ++ ruleKnownArgs S cur es
-    | _ => ruleKnownArgs S cur es
+      ++ ruleKnownArgs S D cur es
+    | _ => ruleKnownArgs S D cur es
 
 /-- `UniqueArgumentNames` -/
 def ruleUniqueArgs : List String → List Evt → List Kind
@@ -627,6 +697,14 @@ def ruleUnusedVars (d : Doc) (tbl : List ScopeRec) : List Kind :=
     let used := (reachable tbl (.op o.name)).flatMap (fun s => (recOf tbl s).used)
     if o.vars.any (fun v => !used.contains v.name) then [if o.name.isSome then Kind.unusedVarOp else Kind.unusedVar] else [])
 
+/-- `def.node.default_value.is_some()` as `VariableInAllowedPosition` reads it; repaired: the literal
+    `null` is not a default that makes a nullable variable usable at a non-null position -/
+def hasDefault (D : Defects) (v : VarDef) : Bool :=
+  match v.default with
+  | some .null => D.nullDefaultCounts
+  | some _ => true
+  | none => false
+
 /-- `VariableInAllowedPosition::collect_incorrect_usages` -/
 def ruleVarPositions (D : Defects) (d : Doc) (tbl : List ScopeRec) : List Kind :=
   d.ops.flatMap (fun o =>
@@ -635,7 +713,7 @@ def ruleVarPositions (D : Defects) (d : Doc) (tbl : List ScopeRec) : List Kind :
     if us.any (fun u =>
       match o.vars.find? (·.name = u.1) with
       | some v =>
-        let expected := if !v.ty.isNonNull && v.default.isSome then TypeRef.nonNull v.ty else v.ty
+        let expected := if !v.ty.isNonNull && hasDefault D v then TypeRef.nonNull v.ty else v.ty
         let expected' := if !D.locationDefaultIgnored && u.2.2 && !v.ty.isNonNull then TypeRef.nonNull v.ty else expected
         !(isSubtype D u.2.1 expected')
       | none => false) then [Kind.varPosition] else [])
@@ -665,19 +743,26 @@ def addOutput (st : FCState) (cond : Option String) (key name : String) (args : 
     { st with errs := st.errs ++ e1 ++ e2 ++ e3 }
   | none => { st with outputs := st.outputs ++ [{ cond, key, name, args }] }
 
+/-- the `on_type` the fields of an inline fragment are filed under: its type condition; without one,
+    `None` (`u`, the pinned behaviour) or the `on_type` of the enclosing selection (repaired) -/
+def inlineCond (u : Bool) (cond c : Option String) : Option String :=
+  match c with
+  | some t => some t
+  | none => if u then none else cond
+
 /-- `FindConflicts::find`; fuel bounds inline nesting + fragment expansion -/
-def findConflicts (d : Doc) : Nat → Option String → List Sel → FCState → FCState
+def findConflicts (d : Doc) (u : Bool) : Nat → Option String → List Sel → FCState → FCState
   | 0, _, _, st => st
   | fuel + 1, cond, sels, st =>
     sels.foldl (fun st s =>
       match s with
       | .field al n args _ _ _ => addOutput st cond (al.getD n) n args
-      | .inline c _ ss _ => findConflicts d fuel c ss st
+      | .inline c _ ss _ => findConflicts d u fuel (inlineCond u cond c) ss st
       | .spread n _ _ =>
         match d.frag? n with
         | some f =>
           if st.visited.contains n then st
-          else findConflicts d fuel (some f.cond) f.sels { st with visited := n :: st.visited }
+          else findConflicts d u fuel (some f.cond) f.sels { st with visited := n :: st.visited }
         | none => st) st
 
 mutual
@@ -693,9 +778,9 @@ end
 def docFuel (d : Doc) : Nat :=
   d.ops.foldl (fun n o => n + selsSize o.sels + 1) (d.frags.foldl (fun n f => n + selsSize f.sels + 1) 2)
 
-def ruleOverlap (d : Doc) (evs : List Evt) : List Kind :=
+def ruleOverlap (D : Defects) (d : Doc) (evs : List Evt) : List Kind :=
   evs.flatMap (fun e => match e.ev with
-    | .enterSet ss => (findConflicts d (docFuel d) none ss {}).errs
+    | .enterSet ss => (findConflicts d D.overlapUntypedInlineKeyedNone (docFuel d) none ss {}).errs
     | _ => [])
 
 -- ------------------------------------------------------------------ check_rules (Strict)
@@ -706,13 +791,13 @@ def strictErrors (S : VSchema) (D : Defects) (d : Doc) (vars : List (String × G
   let tbl := scopeTable none [] evs
   evs.flatMap (stateless S D d)
   ++ ruleArgsCorrect S D vars opName none false evs
-  ++ ruleKnownArgs S none evs
+  ++ ruleKnownArgs S D none evs
   ++ ruleUniqueArgs [] evs
   ++ ruleUniqueVars [] evs
   ++ ruleKnownDirs S [] evs
   ++ ruleCycles d tbl ++ ruleUnusedFrags d tbl ++ ruleUndefinedVars d tbl ++ ruleUnusedVars d tbl
   ++ ruleVarPositions D d tbl
-  ++ ruleOverlap d evs
+  ++ ruleOverlap D d evs
 
 -- ------------------------------------------------------------------ before validation: parser and recursion guard
 
